@@ -1,6 +1,7 @@
 import LyModel.Props.C02Full
 import LyModel.Valid.XpLemmas
 import LyModel.Valid.XpWitness
+import LyModel.Valid.XpTag
 /-!
 # C02 — the XPath-dependent constraints: `must`, leafref `require-instance` (and `when`, modelled, see the end)
 
@@ -97,6 +98,49 @@ example : ((buildL Xxp.base tXpOk = none ∧ (validateX Xxp Cxp {} tXpOk).errs =
     (nodeLookupOk_of_B _ (by decide +kernel)) (infoOk_of_B _ (by decide +kernel)) (fullSane_of_B _ _ (by decide +kernel))
     (uniqPathsOk_of_B _ (by decide +kernel)) (dataSchema_of_B _ (by decide +kernel)) rfl tXpOk (by decide +kernel) (by decide +kernel)
     (by decide +kernel) (by decide +kernel) (by decide +kernel) (by decide +kernel) (by decide +kernel) (by decide +kernel)
+
+/-- **`validate_error_tag_xpath`** (same hypotheses, `LYD_VALIDATE_OPERATIONAL` allowed for the XPath part): every error `validateX` logs
+is an error `validate` logs — hence of a structural family the instance violates (`validate_error_tag_full`) — or a `NoMust`
+(app-tag `must-violation`) / an unevaluable `must` (`Other`) where some `must` is violated on the accessible tree, or a `NoReqInst`
+(app-tag `instance-required`) where some leafref has no target instance with its value -/
+theorem validate_error_tag_xpath (X : SchemaX) (C : XCons) (o : VOpts) (hop : o.operational = false)
+    (hq : X.q.implicitInnerCase = false) (hqu : X.q.uniqueDefaultAlways = false) (hl : KidsLookupOk X) (hnl : NodeLookupOk X)
+    (hio : InfoOk X) (hs : FullSane X o) (hup : UniqPathsOk X) (hw : C.whens = []) (t : List DNode)
+    (hg : goodL X X.top t = true) (hlen0 : t.length ≤ uint32Max) (hh : sheightL X.top ≤ walkFuel X t)
+    (hpe : (o.present && t.isEmpty) = false)
+    (hacc : obsL X.base (validate X o t).tree = obsL X.base (rfcComplete X o t))
+    (hcc : cfgClosedL X.base true (rfcComplete X o t) = true) :
+    ∀ e ∈ (validateX X C o t).errs, e.kind ∈ violationsX X C o t ∨ (e.kind = .xpErr ∧ EKind.noMust ∈ violationsX X C o t) := by
+  intro e he
+  have hmem : ∀ K, K ∈ xpViolations X.base C (rfcComplete X o t) → K ∈ violationsX X C o t := by
+    intro K hK
+    unfold violationsX
+    simp only [hpe, Bool.false_eq_true, if_false, List.mem_append]
+    exact Or.inr hK
+  rcases validateX_error_tag X C o t (whenPhase_nil X C o hw) hpe hacc hcc e he with h | ⟨hk, h⟩ | ⟨hk, h⟩ | ⟨hk, h⟩
+  · left
+    unfold violationsX
+    rw [List.mem_append]
+    exact Or.inl (validate_error_tag_full X o hop hq hqu hl hnl hio hs hup t hg hlen0 hh e h)
+  · left; rw [hk]; exact hmem _ h
+  · right; exact ⟨hk, hmem _ h⟩
+  · left; rw [hk]; exact hmem _ h
+
+/-- non-vacuity: the errors logged on the three invalid witness trees are of the families the specification lists -/
+example : (∀ e ∈ (validateX Xxp Cxp {} tXpBadMust).errs, e.kind ∈ violationsX Xxp Cxp {} tXpBadMust) ∧
+    (validateX Xxp Cxp {} tXpBadMust).errs ≠ [] := by
+  refine ⟨?_, by decide +kernel⟩
+  intro e he
+  have := validate_error_tag_xpath Xxp Cxp {} rfl rfl rfl (lookupOk_of_B _ (by decide +kernel)) (nodeLookupOk_of_B _ (by decide +kernel))
+    (infoOk_of_B _ (by decide +kernel)) (fullSane_of_B _ _ (by decide +kernel)) (uniqPathsOk_of_B _ (by decide +kernel)) rfl tXpBadMust
+    (by decide +kernel) (by decide +kernel) (by decide +kernel) rfl
+    (validate_rfcComplete_nochoice Xxp {} tXpBadMust rfl (dataSchema_of_B _ (by decide +kernel)) (by decide +kernel) (by decide +kernel)
+      (by decide +kernel) (by decide +kernel) rfl) (by decide +kernel) e he
+  rcases this with h | ⟨hk, _⟩
+  · exact h
+  · exfalso
+    have hall : ∀ e ∈ (validateX Xxp Cxp {} tXpBadMust).errs, e.kind ≠ .xpErr := by decide +kernel
+    exact hall e he hk
 
 /-!
 ## `when`
